@@ -89,6 +89,9 @@ def parseOp : List String → Option Op
   | ["adv", ns] => do
     let ns ← nat? ns
     pure (.adv ns)
+  -- `hold <addr> <ms>` (wire histories): another writer holds the server's lock for a moment of real time; the datagram
+  -- that follows waits for it and is handled as usual — nothing at the model's level
+  | ["hold", _, _] => pure (.adv 0)
   | ["dg6", ip, port, hex] => do
     let src ← parseIp6 ip
     let port ← nat? port
